@@ -692,3 +692,10 @@ pub fn execute_with(case: &Case, prov: &mut Prov) -> Record {
         view: Some(view),
     }
 }
+
+/// Run the validation on an already built request (used by the C07 tracer so that only the validation call lies
+/// inside the traced region). Returns whether the request was accepted.
+pub fn execute_built(req: Request<Bytes>, case: &Case, prov: &mut Prov) -> bool {
+    let (outcome, _polls) = run_with_reqs(req, case.wire.body_kind, &case.cfg, prov);
+    outcome.is_ok()
+}
